@@ -22,3 +22,7 @@ pub mod verif_hooks_c10_export {
     pub use super::router_handler::verif_hooks_c10::*;
     pub use super::router_handler::RouterHandler;
 }
+
+/// C14: the real `add_peer_config` call site for the verification harness.
+#[cfg(feature = "verif-hooks")]
+pub mod verif_hooks_c14;
